@@ -114,7 +114,9 @@ def make_case(rnd, m, nm, em, thorough, hostile=None):
         # disconnected: the limit width -> 0+), which is not "strictly inside the range" for that data set
         if kind == "swiss" and w < 100.0:
             interior = False
-        if kind in ("gauss", "scurve") and w < 1.0:
+        # (Gaussian clouds: squared distances grow with the dimension, up to ~ 10 D; at width 1 in 5 dimensions every weight of a
+        # 4-sample set was below 1e-16 of the diagonal, the trivial eigenvalue four-fold and psi_0 arbitrary - thorough tier)
+        if kind in ("gauss", "scurve") and w < max(1.0, D):
             interior = False
         c["width"] = w
     if m == "dm":
